@@ -63,18 +63,31 @@ func resumeProp(kinds []int, nq, nt int) propFn {
 		n := scale(thorough, nq, nt)
 		for i := 0; i < n; i++ {
 			in := g.input(kinds[i%len(kinds)])
-			cuts := g.cuts(in.Offs, len(in.Buf))
-			c := inputCase(&in, cuts)
-			out, res := runCase(c)
-			w.emitCase(c, out)
-			noteInput(rep, &in, res)
-			rep.count(fmt.Sprintf("cuts:%d", min(len(cuts), 8)))
-			oracleSafe(rep, c, res)
-			if len(res) == 1 && res[0].Panic == "" {
-				oracleResume(rep, &in, cuts, &res[0])
+			// every input is fed under two schedules: one byte at a time (random cuts for very long
+			// texts), and one cut next to a byte that is special to the grammar
+			var every []int
+			if len(in.Buf)-in.Offs <= 700 {
+				for k := in.Offs + 1; k < len(in.Buf); k++ {
+					every = append(every, k)
+				}
+			} else {
+				every = g.cuts(in.Offs, len(in.Buf))
 			}
-			if i < 3 {
-				rep.sample(json.RawMessage(caseJSON(c)))
+			for si, cuts := range [][]int{every, g.cutsFor(in.Offs, in.Buf)} {
+				c := inputCase(&in, cuts)
+				out, res := runCase(c)
+				if si == 1 || len(in.Buf) < 300 || i%4 == 0 {
+					w.emitCase(c, out)
+				}
+				noteInput(rep, &in, res)
+				rep.count(fmt.Sprintf("cuts:%d", min(len(cuts), 8)))
+				oracleSafe(rep, c, res)
+				if len(res) == 1 && res[0].Panic == "" {
+					oracleResume(rep, &in, cuts, &res[0])
+				}
+				if i < 2 && si == 1 {
+					rep.sample(json.RawMessage(caseJSON(c)))
+				}
 			}
 		}
 		// bounded exhaustive: short texts over the delimiter alphabet, every single cut
